@@ -240,14 +240,14 @@ pub fn subchecks(tier: Tier) -> Vec<SubCheck> {
         generated(
             "target_reuse",
             "histories of 1..5 initialisations of one FuzzyHashCompareTarget (init_from with FuzzyHash / LongFuzzyHash / DualFuzzyHash / LongDualFuzzyHash by reference or value, From) over hashes of differing lengths and symbols; after each: valid, full_eq a fresh target, is_equiv exactly to its hash, same compare / is_comparison_candidate answers as the fresh target (and the reference score) against the earlier hashes, derived partners and probes in all block-size relations; non-trivial = history >= 2 whose current hash is shorter than, or lacks symbols of, an earlier one; distinct by history",
-            tier.pick(120_000, 2_000_000),
+            tier.pick(400_000, 4_000_000),
             strategy,
             eval,
         ),
         generated(
             "position_array_reuse",
             "histories of init_from / clear on one BlockHashPositionArray: bit-level reference of representation(), len, is_empty, is_valid, is_valid_and_normalized <=> no run > 3, == fresh array, is_equiv exactly to the string, edit_distance / has_common_substring vs references on probes; non-trivial as above; distinct by history",
-            tier.pick(200_000, 3_000_000),
+            tier.pick(600_000, 6_000_000),
             || {
                 (
                     proptest::collection::vec(prop_oneof![5 => gens::block_hash(64).prop_map(PaOp::Init), 1 => Just(PaOp::Clear)], 1..=5),
